@@ -67,6 +67,14 @@ func readerFiles(c *driverCtx, withLarge bool) []readerFile {
 		{"flushes", 6, 1 << 20, []int{1, 2, 5}, false},
 	}
 	if withLarge {
+		// a block whose payload is larger than 1 MiB (the reader fetches payloads in 1 MiB chunks)
+		layouts = append(layouts, struct {
+			name  string
+			n     int
+			block int
+			flush []int
+			big   bool
+		}{"over1MiB", 3, 1 << 30, []int{0}, false})
 		layouts = append(layouts,
 			struct {
 				name  string
@@ -86,10 +94,17 @@ func readerFiles(c *driverCtx, withLarge bool) []readerFile {
 	st := staticOf[RRec]("RRec")
 	for _, codec := range codecs3 {
 		for _, l := range layouts {
+			if l.name == "over1MiB" && codec != "null" && !c.thorough() {
+				continue
+			}
 			vals := make([]reflect.Value, l.n)
 			for i := range vals {
 				p := reflect.New(st.typ)
-				p.Elem().Set(reflect.ValueOf(mkRRec(c, i, l.big)))
+				r := mkRRec(c, i, l.big)
+				if l.name == "over1MiB" && i > 0 {
+					r.Name = string(payload(c.rng, 600000)) // incompressible, two of them make the second block > 1 MiB
+				}
+				p.Elem().Set(reflect.ValueOf(r))
 				vals[i] = p.Elem()
 			}
 			cfg := rtConfig{Codec: codec, Block: l.block, Flush: map[int]bool{}}
@@ -160,6 +175,9 @@ func driveC08(c *driverCtx) error {
 		if n > 700 {
 			step = c.pick(n/200, n/1500+1)
 		}
+		if n > 1<<20 {
+			step = n // only the cuts near field and chunk boundaries
+		}
 		// every cut for ordinary files; for the large ones every cut near a field boundary plus a stride
 		important := map[int]bool{0: true, n: true}
 		if f, err := splitContainer(rf.bytes); err == nil {
@@ -167,6 +185,12 @@ func driveC08(c *driverCtx) error {
 				for _, p := range []int{b.Start, b.LenAt, b.DataAt, b.SyncAt, b.End, f.HeaderEnd} {
 					for d := -2; d <= 2; d++ {
 						important[p+d] = true
+					}
+				}
+				for k := 1; k<<20 < len(b.Payload); k++ {
+					c.rec.Realised("payload-over-1MiB")
+					for d := -1; d <= 1; d++ {
+						important[b.DataAt+k<<20+d] = true
 					}
 				}
 			}
